@@ -153,10 +153,8 @@ def pathValid (p : Path) : Res (Path × Nat) :=
       let post := used - (p.off + p.len)
       .ok ({ p with keepPost := p.keepPost || post ≠ 0 }, post)
 
-/-- `mpt_path_add(path, add)` on an array backed path: the `add` pending characters become the next element -/
-def pathAdd (p : Path) (add : Nat) : Res Path :=
-  if !p.hasArray then .err .MissingBuffer
-  else
+/-- `mpt_path_add(path, add)` on the used part `p.base` of the buffer: the `add` pending characters become the next element -/
+def pathAddCore (p : Path) (add : Nat) : Res Path :=
     let len := p.off + p.len
     let used := p.base.length
     if used < len then .oob else
@@ -181,6 +179,15 @@ def pathAdd (p : Path) (add : Nat) : Res Path :=
           let first := if p.len ≠ 0 then p.first else (if add > 255 then 0 else add)
           let base := Mem.write base (len + add) [p.assign]
           .ok { p with base := base, first := first, len := len + add + 1 - p.off, keepPost := false }
+
+/-- `mpt_path_add(path, add)`: without storage (`base == NULL`) refused; a path that still refers to a plain string
+    gets a buffer with a copy of its data and the `add` bytes behind it (the array flag is NOT set by the code) -/
+def pathAdd (p : Path) (add : Nat) : Res Path :=
+  if !p.hasArray then
+    if p.base.isEmpty then .err .MissingBuffer
+    else if p.base.length < p.off + p.len + add then .oob
+    else pathAddCore { p with base := p.base.take (p.off + p.len + add) } add
+  else pathAddCore p add
 
 /-- `mpt_path_addchar` followed by `mpt_path_valid`: one more pending character that is kept -/
 def pushChar (p : Path) (c : Byte) : Path :=
